@@ -642,7 +642,7 @@ func (p *pipe) _backgroundRead() (err error) {
 			if multi == nil {
 				multi = ones
 			}
-		} else if ff > 0 && cmds.IsStaticTTL(multi[ff]) {
+		} else if ff > 0 && p.cache != nil && cmds.IsStaticTTL(multi[ff]) {
 			// ToStaticTTL path: msg is the cacheable reply directly (no
 			// EXEC unwrap). Must be checked before the standard CSC
 			// gate below — an array reply of length >= 2 on that gate's
@@ -659,7 +659,7 @@ func (p *pipe) _backgroundRead() (err error) {
 				cp.attrs = cacheMark
 				msg.setExpireAt(p.cache.Update(ck, cc, cp))
 			}
-		} else if ff >= 4 && len(msg.values()) >= 2 && multi[0].IsOptIn() { // if unfulfilled multi commands are lead by opt-in and get a success response
+		} else if ff >= 4 && p.cache != nil && len(msg.values()) >= 2 && multi[0].IsOptIn() { // if unfulfilled multi commands are lead by opt-in and get a success response
 			now := time.Now()
 			if cacheable := Cacheable(multi[ff-1]); cacheable.IsMGet() {
 				cc := cmds.MGetCacheCmd(cacheable)
